@@ -298,17 +298,26 @@ func compile(s *selgen.Sel) selector.Selector {
 
 // HWalking: a selector-driven transform inside one block: matched scalars are replaced, identity elsewhere.
 func HWalking() {
-	g := graph.New("g", graphs[nd.Choose("graph", 2)])
+	gs := nd.Choose("graph", 3)
+	g := graph.New("g", append(graphs[:2:2], "[s3b3[s2]]")[gs])
 	before := refval.Of(g.Root)
 	sels := []*selgen.Sel{
 		{Op: 'a', Subs: []*selgen.Sel{matcher}},
 		{Op: 'a', Subs: []*selgen.Sel{{Op: 'a', Subs: []*selgen.Sel{matcher}}}},
 		{Op: 'R', LimitNone: true, Subs: []*selgen.Sel{{Op: '|', Subs: []*selgen.Sel{matcher, {Op: 'a', Subs: []*selgen.Sel{{Op: '@'}}}}}}},
 		{Op: 'i', Index: nd.Int64("idx"), Subs: []*selgen.Sel{matcher}},
+		// a subset matcher: which part of a string or bytes node matched is the matcher's
+		// business; the transform is shown, and replaces, the node at the position
+		{Op: 'a', Subs: []*selgen.Sel{{Op: '|', Subs: []*selgen.Sel{{Op: '.', Subset: true, From: 0, To: 1}, {Op: 'a', Subs: []*selgen.Sel{{Op: '.', Subset: true, From: 1, To: 2}}}}}}},
 	}
 	si := nd.Choose("sel", len(sels))
 	sel := compile(sels[si])
 	mode := nd.Choose("mode", 2) // 0: identity, 1: replace matched scalars by a fixed string
+	if si == 4 {
+		mode = 0
+	} else if gs == 2 {
+		return // the graph of longer strings is for the subset matcher
+	}
 	var out datamodel.Node
 	var err error
 	nd.NoPanic("WalkTransforming", func() {
